@@ -1154,4 +1154,139 @@ theorem collect_wf' (g : G) (top : Id) (present : Id → Bool) (hpres : ∀ i, p
             subst hb
             intro e; subst e; exact htop ha⟩
 
+/-! ### the cache stays inside the stored content across stores / overwrites, whatever position fails -/
+
+theorem applyOpsG_puts_mono : ∀ (ws : List (Id × Data)) (g : G) (i : Id), g i ≠ none →
+    applyOpsG g (ws.map (fun p => Op.put p.1 p.2 true)) i ≠ none := by
+  intro ws
+  induction ws with
+  | nil => intro g i h; exact h
+  | cons w ws ih =>
+    intro g i h
+    simp only [List.map_cons, applyOpsG_cons]
+    apply ih
+    simp only [applyOpG, gput]
+    by_cases e : i = w.1 <;> simp [e, h]
+
+theorem applyOpsG_puts_take_mono (ws : List (Id × Data)) (g : G) (i : Id) (j : Nat) (h : g i ≠ none) :
+    applyOpsG g ((ws.map (fun p => Op.put p.1 p.2 true)).take j) i ≠ none := by
+  rw [← List.map_take]
+  exact applyOpsG_puts_mono _ g i h
+
+theorem applyOpsG_puts_mem : ∀ (ws : List (Id × Data)) (g : G) (i : Id), i ∈ ws.map (fun p => p.1) →
+    applyOpsG g (ws.map (fun p => Op.put p.1 p.2 true)) i ≠ none := by
+  intro ws
+  induction ws with
+  | nil => intro g i h; simp at h
+  | cons w ws ih =>
+    intro g i h
+    simp only [List.map_cons, applyOpsG_cons]
+    simp only [List.map_cons, List.mem_cons] at h
+    by_cases hm : i ∈ ws.map (fun p => p.1)
+    · exact ih _ i hm
+    · rcases h with h | h
+      · apply applyOpsG_puts_mono
+        simp [applyOpG, gput, h]
+      · exact (hm h).elim
+
+theorem compileOps_puts_ok (b : Backend) : ∀ (ws : List (Id × Data)) (fs : FS),
+    (compileOps b fs (ws.map (fun p => Op.put p.1 p.2 true))).2 = none := by
+  intro ws
+  induction ws with
+  | nil => intro fs; rfl
+  | cons w ws ih =>
+    intro fs
+    simp only [List.map_cons, compileOps, compileOp, Bool.not_true, Bool.and_false, Bool.false_eq_true, if_false]
+    exact ih _
+
+theorem publish_get : ∀ (ws : List (Id × Data)) (c : Store) (i : Id),
+    (ws.foldl (fun c p => c.put p.1 p.2) c).get i ≠ none → c.get i ≠ none ∨ i ∈ ws.map (fun p => p.1) := by
+  intro ws
+  induction ws with
+  | nil => intro c i h; left; exact h
+  | cons w ws ih =>
+    intro c i h
+    simp only [List.foldl_cons] at h
+    rcases ih _ i h with h' | h'
+    · rw [Store.get_put] at h'
+      by_cases e : i = w.1
+      · right; simp [e]
+      · left; simpa [e] using h'
+    · right; simp [h']
+
+/-- a store / overwrite (plan `puts`) keeps the cache inside the stored content at every failure position -/
+theorem cacheOK_puts (b : Backend) (hb : b.fixed = true) (fs : FS) (txn : Txn) (ws : List (Id × Data))
+    (hp : plan b fs txn = .ok (.puts ws)) (hc : CacheOK b fs) (pre : Store) (hview : view b fs = some pre)
+    (k : Nat) : CacheOK b (runTxn b fs txn k) := by
+  have hv : ViewIs b fs pre.get := ⟨pre, hview, rfl⟩
+  have hops : txnOps b fs txn = ws.map (fun p => Op.put p.1 p.2 true) := by simp [txnOps, hp, Plan.ops]
+  by_cases hk : k < (compileTxn b fs txn).1.length
+  · obtain ⟨j, ⟨s, hs, hg⟩, hcache⟩ := compileTxn_prefix b hb fs pre.get txn hv k
+    intro pre' hpre' i hi
+    unfold runTxn at hpre' hi
+    rw [hs] at hpre'
+    injection hpre' with e
+    subst e
+    rw [hcache hk] at hi
+    rw [hg, hops]
+    exact applyOpsG_puts_take_mono ws _ i j (hc pre hview i hi)
+  · have hall : (compileTxn b fs txn).1.take k = (compileTxn b fs txn).1 := List.take_of_length_le (by omega)
+    have herr : (compileTxn b fs txn).2 = none := by
+      simp [compileTxn, hp, Plan.steps, Plan.ops, compileOps_puts_ok]
+    obtain ⟨s, hs, hg⟩ := compileTxn_final b hb fs pre.get txn hv herr
+    have hsteps : (compileTxn b fs txn).1
+        = (compileOps b fs (ws.map (fun p => Op.put p.1 p.2 true))).1 ++ [.publish ws] := by
+      simp [compileTxn, hp, Plan.steps, Plan.ops, Plan.epilogue, compileOps_puts_ok]
+    have hcache0 : (run (compileOps b fs (ws.map (fun p => Op.put p.1 p.2 true))).1 fs).cache = fs.cache := by
+      obtain ⟨_, _, h⟩ := compileOps_prefix b hb (ws.map (fun p => Op.put p.1 p.2 true)) fs pre.get hv
+        (compileOps b fs (ws.map (fun p => Op.put p.1 p.2 true))).1.length
+      rw [List.take_of_length_le (Nat.le_refl _)] at h
+      exact h
+    intro pre' hpre' i hi
+    unfold runTxn at hpre' hi
+    rw [hall] at hpre' hi
+    rw [hs] at hpre'
+    injection hpre' with e
+    subst e
+    rw [hg, hops]
+    rw [hsteps, run_append] at hi
+    simp only [run, step] at hi
+    rw [hcache0] at hi
+    rcases publish_get ws fs.cache i hi with h | h
+    · exact applyOpsG_puts_mono ws _ i (hc pre hview i h)
+    · exact applyOpsG_puts_mem ws _ i h
+
+theorem plan_tree_cases (b : Backend) (fs : FS) (top : Id) (n : Node) (txn : Txn)
+    (ht : txn = .overwrite top n ∨ txn = .setitem top n) :
+    (∃ e, plan b fs txn = .error e) ∨ (∃ ws, plan b fs txn = .ok (.puts ws)) ∨ plan b fs txn = .ok (.calls []) := by
+  rcases ht with ht | ht <;> subst ht
+  · simp only [plan]
+    cases collect (presentB b fs) top n with
+    | error e => left; exact ⟨e, rfl⟩
+    | ok ws => right; left; exact ⟨ws, rfl⟩
+  · simp only [plan]
+    split
+    · left; exact ⟨_, rfl⟩
+    · split
+      · split
+        · right; right; rfl
+        · left; exact ⟨_, rfl⟩
+      · split
+        · left; exact ⟨_, rfl⟩
+        · cases collect (presentB b fs) top n with
+          | error e => left; exact ⟨e, rfl⟩
+          | ok ws => right; left; exact ⟨ws, rfl⟩
+
+/-- … for every store / overwrite of a tree -/
+theorem cacheOK_tree (b : Backend) (hb : b.fixed = true) (fs : FS) (top : Id) (n : Node) (txn : Txn)
+    (ht : txn = .overwrite top n ∨ txn = .setitem top n) (hc : CacheOK b fs) (pre : Store)
+    (hview : view b fs = some pre) (k : Nat) : CacheOK b (runTxn b fs txn k) := by
+  rcases plan_tree_cases b fs top n txn ht with ⟨e, he⟩ | ⟨ws, hws⟩ | hcalls
+  · have : runTxn b fs txn k = fs := by simp [runTxn, compileTxn, he, run]
+    rw [this]; exact hc
+  · exact cacheOK_puts b hb fs txn ws hws hc pre hview k
+  · have : runTxn b fs txn k = fs := by
+      simp [runTxn, compileTxn, hcalls, Plan.steps, Plan.ops, Plan.epilogue, compileOps, run]
+    rw [this]; exact hc
+
 end QP.C11
